@@ -7,6 +7,7 @@
 import AITB.Props.C20c
 import AITB.Props.C20d
 import AITB.Props.C20e
+import AITB.Props.C20f
 import AITB.Gen.C20
 namespace AITB.Trie
 
@@ -412,5 +413,28 @@ theorem fastertrie_refines_spec (F : List Nat) (ops : List FOp) (hok : FHistOK F
 
 example : FHistOK [3, 2] ([], 0) [.ins [(0, 1)], .ins [(0, 2), (1, 0)], .erp 0 [(0, 1)], .erp 0 [(0, 1)], .erp 9 [(1, 1)]] := by
   simp [FHistOK, FOpOK, fspecStep, specInsert, specErase, ValidPF, KeysAsc]
+
+
+/-- **C20, Trie, with the intersection loop as written**: in every reachable state the cursor-level
+    `filter` / `refine` (the `applyFilters` loop with `counter`, `lastMaxFound`, `currentMax`, lower-bound
+    advances) return the specification's answer too. -/
+theorem trie_cursor_refines_spec (F : List Nat) (t0 : T) (hmk : T.mk? F = some t0) (ops : List Op)
+    (hok : HistOK F ([], 0) ops) :
+    ∃ t, run true t0 ops = some t ∧
+      (∀ fb q, ValidQ F q → q ≠ [] → t.filterCursor fb q = some (specFilter (specRun ([], 0) ops).1 q)) ∧
+      (∀ ids q, ids.Pairwise (· < ·) → ValidQ F q → t.refineCursor ids q = specRefine (specRun ([], 0) ops).1 ids q) := by
+  obtain ⟨t, hr, hRI, hf, _, href, _⟩ := trie_refines_spec F t0 hmk ops hok
+  have hF : t.F = F := by
+    have h0 : RI t0 [] := RI_mk hmk
+    have hF0 : t0.F = F ∧ t0.counter = 0 := by
+      unfold T.mk? at hmk
+      split at hmk
+      · cases hmk
+      · cases hmk; exact ⟨rfl, rfl⟩
+    obtain ⟨t', hr', _, hF', _⟩ := run_RI F ops t0 [] h0 hF0.1 (by rw [hF0.2]; exact hok)
+    rw [hr] at hr'; cases hr'; exact hF'
+  refine ⟨t, hr, fun fb q hq hne => ?_, fun ids q hs hq => ?_⟩
+  · rw [filterCursor_eq hRI fb q (by rw [hF]; exact hq)]; exact hf fb q hq hne
+  · rw [refineCursor_eq hRI ids hs q (by rw [hF]; exact hq)]; exact href ids q hs hq
 
 end AITB.Trie
